@@ -6,7 +6,6 @@
 //!
 //! usage: c08 lits [n] | exprs <n> | stmts <n> <widths> | soup <n> | mutate <n> | floats <n> | text <file> | probe
 use std::collections::BTreeMap;
-use std::fmt::Write as _;
 use truth::ast::{self, meta, Meta};
 use truth::fmt::{Config, Formatter, Format};
 use truth::parse::lexer::{Lexer, Token};
@@ -742,9 +741,9 @@ impl<'a> Gen<'a> {
     }
     fn callsub(&mut self) -> MKind {
         let n = self.rng.below(3) as usize;
-        let at = self.rng.chance(1, 2);
-        let async_ = if !at || self.rng.chance(1, 2) { Some(if self.rng.chance(1, 2) { Some(self.expr(1)) } else { None }) } else { None };
-        MKind::CallSub { at, async_, func: self.ident(), args: (0..n).map(|_| self.expr(1)).collect() }
+        // the parser sets at_symbol for both reserved forms (`@f(..)` and `f(..) async`)
+        let async_ = if self.rng.chance(1, 2) { Some(if self.rng.chance(1, 2) { Some(self.expr(1)) } else { None }) } else { None };
+        MKind::CallSub { at: true, async_, func: self.ident(), args: (0..n).map(|_| self.expr(1)).collect() }
     }
     fn const_item(&mut self) -> MItem {
         let n = 1 + self.rng.below(3) as usize;
@@ -1050,7 +1049,7 @@ fn floats(rng: &mut Rng, n: usize, through_parser_every: usize) {
     println!("STATS\tpatterns={}\thist={:?}", pats.len(), hist);
 }
 
-fn pick_widths(rng: &mut Rng, all: bool) -> Vec<usize> {
+fn pick_widths(_rng: &mut Rng, all: bool) -> Vec<usize> {
     if all { (1..=200).collect() } else { WIDTHS.to_vec() }
 }
 
@@ -1098,14 +1097,14 @@ fn top_term(top: &Top, w: usize) -> String {
 struct TopInfo { cert: bool, known: Option<&'static str>, ftab: String, parser_form: bool, what: &'static str }
 fn top_info(top: &Top) -> TopInfo {
     let mut es: Vec<&MExpr> = vec![];
-    let (callsub, what) = match top {
+    let (_callsub, what) = match top {
         Top::Stmt(s) => { stmt_exprs(s, &mut es); (has_callsub(s), "statement") },
         Top::Meta(m) => { meta_exprs(m, &mut es); (false, "meta") },
         Top::File(f) => { for it in &f.items { item_exprs(it, &mut es); } (f.items.iter().any(item_has_callsub), "file") },
     };
     TopInfo {
         cert: es.iter().all(|e| pr_expr(e)) && top_keys_ok(top) && !top_plus_glue(top),
-        known: if callsub { Some("c08-callsub") } else if !top_keys_ok(top) { Some("c08-meta-negative-key") } else if top_plus_glue(top) { Some("c08-glue:plus-plus") } else { es.iter().filter_map(|e| defect_class(e)).next() },
+        known: if !top_keys_ok(top) { Some("c08-meta-negative-key") } else if top_plus_glue(top) { Some("c08-glue:plus-plus") } else { es.iter().filter_map(|e| defect_class(e)).next() },
         ftab: float_tab(&es), parser_form: es.iter().all(|e| in_parser_form(e)), what,
     }
 }
@@ -1433,6 +1432,32 @@ fn run_input(term: &str) -> R<()> {
     Ok(())
 }
 
+/// unbracketed operator chains: the precedence tiers, associativity, the single prefix operator per level,
+/// ternary / difficulty-switch nesting of the expression grammar vs the parser specification
+fn chains(rng: &mut Rng, n: usize) {
+    let mut hist = Hist::new();
+    let atoms = ["a", "b", "x1", "3", "0x10", "2.5", "f(1, 2)", "$x", "%REG[3]", "x++", "--y", "(c)", "sin(z)", "E.v", "\"s\"", "ins_7()", "offsetof(l)", "true"];
+    for _ in 0..n {
+        let k = 2 + rng.below(5);
+        let mut t = String::new();
+        for i in 0..k {
+            if i > 0 {
+                match rng.below(12) {
+                    0 => t.push_str(" ? "), 1 => t.push_str(" : "), 2 => t.push_str(" :"),
+                    _ => { t.push(' '); t.push_str(*rng.pick(&BINOPS)); t.push(' '); },
+                }
+            }
+            match rng.below(8) { 0 => t.push('-'), 1 => t.push('!'), 2 => t.push('~'), 3 if rng.chance(1, 4) => t.push_str("- -"), _ => {} }
+            t.push_str(*rng.pick(&atoms));
+        }
+        let r = parse_expr(&t);
+        *hist.entry(match &r { PR::Ok(_) => "chain_ok", PR::Err => "chain_error", PR::Panic(_) => "chain_panic" }).or_insert(0) += 1;
+        if let PR::Panic(p) = &r { oracle_fail("c08-parser-panic", p, &format!("RParse {}", cs(&t)), &t); }
+        println!("PARSE\tKParse {} {} {}\t{}\tRParse {}", float_token_tab(&t), cs(&t), cpr(&r, cexpr), one_line(&t), cs(&t));
+    }
+    println!("STATS\tchains={}\thist={:?}", n, hist);
+}
+
 /// the minimal instances of the defects known on the unchanged tree (DESIGN section 6, #11, #12, #17 and the
 /// ones found while building this check); they go through the same oracle as everything else
 const KNOWN_DEFECT_INPUTS: [&str; 18] = [
@@ -1450,7 +1475,7 @@ const KNOWN_DEFECT_INPUTS: [&str; 18] = [
     r#"RExpr true 100%nat (FLitF 4290772992)"#,
     r#"RText "stmt" "x = rad (5);""#,
     r#"RText "stmt" "x = rad (5, y);""#,
-    r#"RText "stmt" "@foo(@mask=1, 2);""#,
+    r#"RText "stmt" "@foo(1, 2);""#,
     r#"RText "stmt" "interrupt[f(1, 2)]:""#,
     r#"RText "stmt" "+ ++x:""#,
     r#"RText "meta" "{ 4294967295: 1 }""#,
@@ -1541,6 +1566,7 @@ fn main() {
         Some("stmts") => stmts(&mut rng, num(2, 100), all, num(3, 2), num(4, usize::MAX)),
         Some("soup") => soup(&mut rng, num(2, 100)),
         Some("mutate") => mutate(&mut rng, num(2, 100)),
+        Some("chains") => chains(&mut rng, num(2, 100)),
         Some("text") => {
             let path = &args[2];
             let text = std::fs::read_to_string(path).expect("read");
